@@ -50,6 +50,8 @@ def rty(t, self_name=None):
     if t is None:
         return UNIT
     k = t[0]
+    if k == "ref" and t[1][0] == "named" and t[1][1] == "str":
+        return ("sstr",)
     if k == "ref" or k == "opaque":
         return rty(t[1], self_name)
     if k == "slice":
@@ -69,7 +71,7 @@ def rty(t, self_name=None):
                 "String": STR, "str": STR}
         if name in prim:
             return prim[name]
-        if name == "Option":
+        if name == "Option" or name == "Result":
             return OPT(rty(args[0], self_name))
         if name == "Vec":
             inner = rty(args[0], self_name)
@@ -96,6 +98,8 @@ def lty(t):
         return "Char"
     if k == "str":
         return "List Char"
+    if k == "sstr":
+        return "String"
     if k == "msg":
         return "Msg"
     if k == "unit":
@@ -164,6 +168,19 @@ BUILTIN_FNS = {
     "get_hex_message": (None, [MSG], STR),
 }
 
+# builtins that need the environment (float / global-state code that stays hand-modelled) or the clock
+BUILTIN_FNS.update({
+    "track_and_groundspeed": ("trackAndGroundspeed tenv.atan2deg", [MSG, BOOL], ("tuple", [OPT(NAT()), OPT(NAT())])),
+    "cpr_location": ("cprLocationArr", [("arr", NAT(), 2), ("arr", NAT(), 2), NAT(), INT()], OPT(("tuple", [RAT, RAT]))),
+    "get_observer_coords": ("tenv.observer", [], OPT(("tuple", [RAT, RAT]))),
+    "haversine": ("tenv.haversine", [RAT, RAT, RAT, RAT], RAT),
+    "icao_to_country": ("icaoToCountry", [NAT()], ("tuple", [("sstr",), ("sstr",)])),
+    "get_icao": ("getIcao", [MSG, NAT()], OPT(NAT())),
+    "now": ("now", [], TIME),
+})
+NEEDS_ENV = {"track_and_groundspeed", "get_observer_coords", "haversine"}
+NEEDS_NOW = {"now"}
+
 LOG_MACROS = {"debug", "info", "warn", "error", "trace", "println", "print", "eprintln"}
 
 
@@ -173,7 +190,7 @@ class Ctx:
         self.fns = {}        # key -> Fn  (key = name or Type.name)
         self.structs = {}    # name -> Struct
         self.sigs = {}       # key -> (lean name, [param types], ret type, self_kind, self type)
-        self.extra_params = {}   # key -> [(name, lean type)] environment parameters threaded through (atan2 etc.)
+        self.needs = {}          # key -> ["now", "env"] extra parameters threaded through (clock, float / global environment)
 
     def key_of(self, fn):
         if fn.impl_of and fn.impl_trait_arg:
@@ -197,6 +214,7 @@ class FnTr:
         self.ret = rty(fn.ret, fn.impl_of) if fn.ret is not None else UNIT
         self.tmp = 0
         self.calls = set()
+        self.uses = set()
 
     def fresh(self, base="t"):
         self.tmp += 1
@@ -325,6 +343,8 @@ class FnTr:
                 return f"'{chr(cp)}'", CHAR
             return f"(Char.ofNat 0x{cp:X})", CHAR
         if k == "lit_str":
+            if expect and expect[0] == "sstr":
+                return '"' + e[1] + '"', ("sstr",)
             return '"' + e[1] + '".toList', STR
         if k == "path":
             segs = e[1]
@@ -598,22 +618,35 @@ class FnTr:
             key = f"{tyname}.{name}"
             if key in self.ctx.sigs:
                 return self.emit_call(key, args, env)
+            if name == "default" and f"{tyname}.new" in self.ctx.sigs:     # `impl Default` forwards to `new`
+                return self.emit_call(f"{tyname}.new", args, env)
         if name in self.ctx.sigs:
             return self.emit_call(name, args, env)
+        if name == "now" and len(segs) >= 2 and segs[-2] == "Utc":
+            self.uses.add("now")
+            return "now", TIME
+        if name in ("Ok",) and len(segs) == 1:
+            t, ty = self.tr(args[0], env, expect[1] if expect and expect[0] == "opt" else None)
+            return f"some {par(t)}", OPT(ty)
+        if name in ("Err",) and len(segs) == 1:
+            return "none", expect if expect and expect[0] == "opt" else OPT(("unknown",))
         if name in BUILTIN_FNS:
             lean, ptys, ret = BUILTIN_FNS[name]
             if lean is None:
                 raise TErr(f"{name} only occurs in log output")
+            if name in NEEDS_ENV:
+                self.uses.add("env")
             parts = [par(self.tr(a, env, t)[0]) for a, t in zip(args, ptys)]
-            return f"{lean} " + " ".join(parts), ret
+            return (f"{lean} " + " ".join(parts)).strip(), ret
         raise TErr(f"call of unknown function {'::'.join(segs)}")
 
     def emit_call(self, key, args, env, recv=None):
         lean, ptys, ret, self_kind, self_ty = self.ctx.sigs[key]
         self.calls.add(key)
         parts = []
-        for n, _ in self.ctx.extra_params.get(key, []):
-            parts.append(n)
+        for n in self.ctx.needs.get(key, []):
+            self.uses.add(n)
+            parts.append("tenv" if n == "env" else n)
         if recv is not None:
             parts.append(par(recv))
         if len(args) != len(ptys):
@@ -682,10 +715,24 @@ class FnTr:
             return f"{RV}.length", NAT(64)
         # a method of a translated struct
         if rt[0] == "struct":
-            key = f"{rt[1]}.{name}"
+            key = self.method_key(rt[1], name, args, env)
             if key in self.ctx.sigs:
                 return self.emit_call(key, args, env, recv=recv)
         raise TErr(f"method {name} on {rt}")
+
+    def method_key(self, sname, name, args, env):
+        key = f"{sname}.{name}"
+        if key in self.ctx.sigs:
+            return key
+        # trait impls distinguished by the type of the first argument
+        if args:
+            try:
+                _, aty = self.tr(args[0], env)
+            except TErr:
+                return key
+            if aty[0] == "struct" and f"{key}<{aty[1]}>" in self.ctx.sigs:
+                return f"{key}<{aty[1]}>"
+        return key
 
     def range_test(self, rng, x, xty, env):
         parts = []
@@ -859,8 +906,7 @@ class FnTr:
             if root is not None:
                 rty_ = env.get(root) if root != "self" else self.self_ty
                 if rty_ and rty_[0] == "struct":
-                    key = f"{rty_[1]}.{node[2]}"
-                    key = self.ctx.resolve_method(key, node[3], self, env) if hasattr(self.ctx, "resolve_method") else key
+                    key = self.method_key(rty_[1], node[2], node[3], env)
                     sig = self.ctx.sigs.get(key)
                     if sig and sig[3] == "mut" and node[1][0] == "path":
                         acc.add(root)
@@ -879,7 +925,8 @@ class FnTr:
     def lhs_roots(self, lhs, acc):
         if lhs[0] == "tuple":
             for x in lhs[1]:
-                self.lhs_roots(x, acc)
+                if not (x[0] == "path" and x[1] == ["_"]):
+                    self.lhs_roots(x, acc)
             return
         r = self.root_var(lhs)
         if r is None:
@@ -1117,10 +1164,12 @@ class FnTr:
             new = ("binary", bop, cur, rhs)
             return self.tr_assign(("assign", lhs, "=", new), env, cont)
         if lhs[0] == "tuple":
-            r, rty_ = self.tr(rhs, env, ("tuple", [self.lhs_type(x, env) for x in lhs[1]]))
+            r, rty_ = self.tr(rhs, env, ("tuple", [None if (x[0] == "path" and x[1] == ["_"]) else self.lhs_type(x, env) for x in lhs[1]]))
             v = self.fresh("p")
             out = f"let {v} := {r};\n"
             for i, x in enumerate(lhs[1]):
+                if x[0] == "path" and x[1] == ["_"]:
+                    continue
                 out += self.assign_text(x, self.proj(v, rty_, i), env)
             return out + cont(env)
         lty_ = self.lhs_type(lhs, env)
@@ -1245,8 +1294,8 @@ class FnTr:
         fn = self.fn
         env = {}
         params = []
-        for n, lt in self.ctx.extra_params.get(self.ctx.key_of(fn), []):
-            params.append(f"({n} : {lt})")
+        for n in self.ctx.needs.get(self.ctx.key_of(fn), []):
+            params.append("(now : Int)" if n == "now" else "(tenv : TEnv)")
         if fn.self_kind:
             params.append(f"(self : {lty(self.self_ty)})")
         for p, t in fn.params:
@@ -1317,53 +1366,108 @@ TRANSLATE = [
     ("src/decoder/bds/bds_4_5.rs", ["is_bds_4_5"]),
 ]
 
-def load(repo, plan):
+TRANSLATE_PLANE = [
+    ("src/decoder/downlink/short.rs", ["Srt.new", "Srt.update"]),
+    ("src/decoder/downlink/extended/ext.rs", ["Ext.new"]),
+    ("src/decoder/downlink/extended/update.rs", ["Ext.update_mt_1_4", "Ext.update_mt_5_18", "Ext.update_mt_19", "Ext.update_mt_20_22",
+                                                 "Ext.update_mt_31", "Ext.update"]),
+    ("src/decoder/downlink/mode_s.rs", []),
+    ("src/decoder/plane.rs", ["Plane.new", "Plane.from_message"]),
+    ("src/decoder/plane/update_position.rs", ["Plane.update_position"]),
+    ("src/decoder/plane/from_squitter.rs", ["Plane.update"]),
+    ("src/decoder/plane/from_squitter/from_bcast.rs", ["Plane.update_from_bcast"]),
+    ("src/decoder/plane/from_squitter/from_ext.rs", ["Plane.update_from_ext", "Plane.update_cpr", "Plane.update_from_ext_1_4",
+                                                     "Plane.update_from_ext_5_8", "Plane.update_from_ext_9_18", "Plane.update_from_ext_19",
+                                                     "Plane.update_from_ext_20_22", "Plane.update_from_ext_31"]),
+    ("src/decoder/plane/from_squitter/from_mode_s.rs", ["Plane.update_from_mode_s"]),
+    ("src/decoder/plane/from_downlink/from_ext.rs", ["Plane.update_from_downlink<Ext>", "Plane.amend_from_ext_1_4", "Plane.amend_from_ext_5_8",
+                                                     "Plane.amend_from_ext_9_18", "Plane.amend_from_ext_19", "Plane.amend_from_ext_20_22",
+                                                     "Plane.amend_from_ext_31", "Plane.amend_cpr"]),
+    ("src/decoder/plane/from_downlink/from_srt.rs", ["Plane.update_from_downlink<Srt>"]),
+    ("src/decoder/plane/from_downlink/from_mds.rs", ["Plane.update_from_downlink<Mds>"]),
+]
+
+# (output file, imports, plan, structs emitted in this file)
+PLANS = [
+    ("Trans.lean", "import SqModel.Model.RustPrim", TRANSLATE,
+     ["Capability", "SelectedVerticalIntention", "TrackAndTurn", "HeadingAndSpeed", "Meteo"]),
+    ("TransPlane.lean", "import SqModel.Generated.Trans", TRANSLATE_PLANE, ["Srt", "Ext", "Mds", "Plane"]),
+]
+
+
+def load_all(repo):
     ctx = Ctx()
-    wanted = []
-    for rel, keys in plan:
-        fns, structs = R.parse_file(open(os.path.join(repo, rel)).read())
-        for st in structs:
-            ctx.structs[st.name] = st
-            st.file = rel
-        byk = {}
-        for fn in fns:
-            byk[ctx.key_of(fn)] = fn
-        for k in keys:
-            if k not in byk:
-                raise TErr(f"{rel}: function {k} not found (renamed or removed?)")
-            fn = byk[k]
-            fn.file = rel
-            ctx.fns[k] = fn
-            wanted.append(k)
-    for k in wanted:
-        fn = ctx.fns[k]
-        ptys = [rty(t, fn.impl_of) for _, t in fn.params]
-        ret = rty(fn.ret, fn.impl_of) if fn.ret is not None else UNIT
-        st = ("struct", fn.impl_of) if fn.impl_of else None
-        if fn.self_kind == "mut":
-            ret = st
-        ctx.sigs[k] = (ctx.lean_name(fn), ptys, ret, fn.self_kind, st)
+    wanted = {}
+    for out, _, plan, _ in PLANS:
+        wanted[out] = []
+        for rel, keys in plan:
+            fns, structs = R.parse_file(open(os.path.join(repo, rel)).read())
+            for st in structs:
+                ctx.structs[st.name] = st
+                st.file = rel
+            byk = {}
+            for fn in fns:
+                byk[ctx.key_of(fn)] = fn
+            for k in keys:
+                if k not in byk:
+                    raise TErr(f"{rel}: function {k} not found (renamed or removed?)")
+                fn = byk[k]
+                fn.file = rel
+                ctx.fns[k] = fn
+                wanted[out].append(k)
+            # every other non-test function of a translated file must be accounted for
+            for k in byk:
+                if k not in keys and k.split(".")[-1].split("<")[0] not in NOT_TRANSLATED.get(rel, ()):
+                    raise TErr(f"{rel}: function {k} is neither translated nor listed as hand-modelled (new function?)")
+    for ks in wanted.values():
+        for k in ks:
+            fn = ctx.fns[k]
+            ptys = [rty(t, fn.impl_of) for _, t in fn.params]
+            ret = rty(fn.ret, fn.impl_of) if fn.ret is not None else UNIT
+            st = ("struct", fn.impl_of) if fn.impl_of else None
+            if fn.self_kind == "mut":
+                ret = st
+            ctx.sigs[k] = (ctx.lean_name(fn), ptys, ret, fn.self_kind, st)
     return ctx, wanted
+
+
+# functions of translated files that stay hand-modelled (float arithmetic, iterators, formatting, I/O, enum dispatch)
+NOT_TRANSLATED = {
+    "src/decoder/utils.rs": ("get_message", "get_hex_message"),
+    "src/decoder/downlink.rs": ("get_downlink_format",),
+    "src/decoder/adsb/ais.rs": ("ais",),
+    "src/decoder/adsb/icao.rs": ("get_icao",),
+    "src/decoder/adsb/position.rs": ("cpr_location", "signed_lon", "fixed_lat", "nl", "pmod"),
+    "src/decoder/ehs/base.rs": ("track_and_groundspeed",),
+    "src/decoder/bds/bds_1_7.rs": ("default",), "src/decoder/bds/bds_4_0.rs": ("default",), "src/decoder/bds/bds_5_0.rs": ("default",),
+    "src/decoder/bds/bds_6_0.rs": ("default",), "src/decoder/bds/bds_4_4.rs": ("default",),
+    "src/decoder/downlink/short.rs": ("default", "fmt", "from_message", "icao"),
+    "src/decoder/downlink/extended/ext.rs": ("default",),
+    "src/decoder/downlink/extended/update.rs": ("from_message", "icao"),
+    "src/decoder/downlink/mode_s.rs": ("default", "new", "fmt", "from_message", "update", "icao"),
+    "src/decoder/plane.rs": ("default", "fmt", "from_downlink"),
+    "src/decoder/plane/update_position.rs": ("degrees_to_radians", "haversine"),
+    "src/decoder/plane/from_downlink.rs": ("update_from_downlink",),
+}
 
 
 def emit_struct(st):
     lines = [f"structure T.{st.name} where"]
     for f, t in st.fields:
         lines.append(f"  {lname(f)} : {lty(rty(t, st.name))}")
-    lines.append("deriving DecidableEq, Repr")
+    lines.append("deriving DecidableEq" if st.name != "Plane" else "deriving DecidableEq")
     return "\n".join(lines)
 
 
-def toposort(ctx, wanted, bodies, deps):
+def toposort(wanted, deps):
     order, seen = [], set()
     def visit(k, stack):
-        if k in seen:
+        if k in seen or k not in deps:
             return
         if k in stack:
             raise TErr("recursion between translated functions: " + " -> ".join(stack + [k]))
         for d in sorted(deps[k]):
-            if d in deps:
-                visit(d, stack + [k])
+            visit(d, stack + [k])
         seen.add(k)
         order.append(k)
     for k in wanted:
@@ -1371,45 +1475,72 @@ def toposort(ctx, wanted, bodies, deps):
     return order
 
 
-def translate_plan(repo, plan, header, imports, errors):
-    ctx, wanted = load(repo, plan)
-    bodies, deps = {}, {}
-    for k in wanted:
+def translate_all(repo, header, errors):
+    """-> {output file: text}"""
+    ctx, wanted = load_all(repo)
+    allk = [k for ks in wanted.values() for k in ks]
+    # pass 1: what every function uses (clock, environment) and calls
+    uses, deps = {}, {}
+    for k in allk:
+        tr = FnTr(ctx, ctx.fns[k])
+        try:
+            tr.translate()
+        except (TErr, R.ParseError) as e:
+            errors.append(f"{ctx.fns[k].file} :: {k}: {e}")
+        uses[k], deps[k] = set(tr.uses), set(tr.calls)
+    if errors:
+        return {}, ctx
+    changed = True
+    while changed:
+        changed = False
+        for k in allk:
+            for d in deps[k]:
+                if d in uses and not uses[d] <= uses[k]:
+                    uses[k] |= uses[d]
+                    changed = True
+    ctx.needs = {k: [n for n in ("now", "env") if n in uses[k]] for k in allk}
+    # pass 2: with the extra parameters in place
+    bodies = {}
+    for k in allk:
         tr = FnTr(ctx, ctx.fns[k])
         try:
             bodies[k] = tr.translate()
         except (TErr, R.ParseError) as e:
             errors.append(f"{ctx.fns[k].file} :: {k}: {e}")
             bodies[k] = None
-        deps[k] = set(tr.calls)
-    used_structs = []
-    for k in wanted:
-        fn = ctx.fns[k]
-        if fn.impl_of and fn.impl_of in ctx.structs and fn.impl_of not in used_structs and fn.impl_of not in STRUCT_LEAN:
-            used_structs.append(fn.impl_of)
-    out = [header, imports, "", "namespace Sq", "set_option linter.unusedVariables false", ""]
-    for s in used_structs:
-        out.append(f"-- {ctx.structs[s].file}")
-        out.append(emit_struct(ctx.structs[s]))
-        out.append("")
-    for k in toposort(ctx, wanted, bodies, deps):
-        if bodies[k] is None:
-            continue
-        out.append(f"/-- translated from `{ctx.fns[k].file}` :: `{k}` -/")
-        out.append(bodies[k])
-        out.append("")
-    out.append("end Sq")
-    return "\n".join(out) + "\n", ctx
-
-
-PLANS = [(TRANSLATE, "Trans.lean", "import SqModel.Model.RustPrim")]
+    texts = {}
+    for out, imports, plan, structs in PLANS:
+        lines = [header, imports, "", "namespace Sq", "set_option linter.unusedVariables false", ""]
+        for sname in structs:
+            if sname not in ctx.structs:
+                raise TErr(f"struct {sname} not found")
+            lines.append(f"-- {ctx.structs[sname].file}")
+            lines.append(emit_struct(ctx.structs[sname]))
+            lines.append("")
+        for k in toposort(wanted[out], {x: deps[x] for x in wanted[out]}):
+            if bodies[k] is None:
+                continue
+            lines.append(f"/-- translated from `{ctx.fns[k].file}` :: `{k}` -/")
+            lines.append(bodies[k])
+            lines.append("")
+        lines.append(f"/-- the functions of this file, for the bridge-coverage obligation -/")
+        lines.append(f"def T.translated_{out.split('.')[0]} : List String := [" + ", ".join('"' + ctx.lean_name(ctx.fns[k]) + '"' for k in wanted[out]) + "]")
+        lines.append("")
+        lines.append("end Sq")
+        texts[out] = "\n".join(lines) + "\n"
+    return texts, ctx
 
 
 if __name__ == "__main__":
     errors = []
-    for plan, out, imports in PLANS:
-        text, _ = translate_plan(os.environ.get("VERIF_REPO", "/repo"), plan, "-- preview", imports, errors)
-        sys.stdout.write(text)
+    try:
+        texts, _ = translate_all(os.environ.get("VERIF_REPO", "/repo"), "-- preview", errors)
+    except (TErr, R.ParseError) as e:
+        errors.append(str(e)); texts = {}
+    only = sys.argv[1] if len(sys.argv) > 1 else None
+    for out, text in texts.items():
+        if only is None or only == out:
+            sys.stdout.write(text)
     for e in errors:
         print("ERROR", e, file=sys.stderr)
     sys.exit(1 if errors else 0)
